@@ -112,6 +112,9 @@ func impliedObjectType(dec *json.Decoder) (cty.Type, error) {
 		if !ok {
 			return cty.NilType, fmt.Errorf("expected string but found %T", tok)
 		}
+		// cty.Object normalizes attribute names, so two keys that differ
+		// only in normalization form are the same attribute.
+		key = cty.NormalizeString(key)
 
 		// Now read the value
 		tok, err = dec.Token()
